@@ -81,6 +81,23 @@ func layoutVariants(text string, thorough bool) map[string]string {
 			break
 		}
 	}
+	// a comment line longer than the reader's buffer directly above (or one blank line above) a line that is
+	// itself longer than the buffer
+	for i := range lines {
+		t := strings.TrimSpace(lines[i])
+		if t == "" || t[0] == '#' || t[0] == ';' || (i > 0 && isContinuation(lines[i-1])) {
+			continue
+		}
+		bigLine := strings.Repeat(" ", 4100) + lines[i] + strings.Repeat("\t", 4100)
+		comment := "# " + strings.Repeat("a commented-out line ", 250)
+		v := append(append(append([]string(nil), lines[:i]...), comment, bigLine), lines[i+1:]...)
+		out[fmt.Sprintf("bigcomment@%d", i)] = join(v)
+		v2 := append(append(append([]string(nil), lines[:i]...), comment, "", "; short", bigLine), lines[i+1:]...)
+		out[fmt.Sprintf("bigcomment-gap@%d", i)] = join(v2)
+		if !thorough && i > 5 {
+			break
+		}
+	}
 	// the LAST line padded to an exact multiple of the reader's buffer, without a final newline
 	last := len(lines) - 1
 	for last > 0 && strings.TrimSpace(lines[last]) == "" {
@@ -147,6 +164,12 @@ func layoutVariants(text string, thorough bool) map[string]string {
 			}
 			v := append(append(append([]string(nil), lines[:i]...), t[:pos]+" \\", strings.Repeat(" ", pos%5)+b), lines[i+1:]...)
 			out[fmt.Sprintf("split@%d:%d", i, pos)] = join(v)
+			// the same with an inline comment on the first physical line, before its backslash: comments end at
+			// the end of their own physical line
+			if thorough || pos%3 == 0 {
+				v3 := append(append(append([]string(nil), lines[:i]...), t[:pos]+" # a note; on this line only \\", b+" ; and one here"), lines[i+1:]...)
+				out[fmt.Sprintf("splitcomment@%d:%d", i, pos)] = join(v3)
+			}
 			// the same with the first part padded past 4 KiB
 			if thorough || pos%7 == 0 {
 				v2 := append(append(append([]string(nil), lines[:i]...), t[:pos]+strings.Repeat(" ", 4200)+"\\", b), lines[i+1:]...)
@@ -208,7 +231,7 @@ func requestUniverse(csvPath string) [][]interface{} {
 }
 
 func runC08(c *Ctx) {
-	c.Rule = "every examples/*.conf plus generated model texts x the layout transformations (CRLF, padding every line, padding one line past 4 KiB on either side, the last line padded to exactly 4096/8192 bytes without a final newline, tabs around '=' and ',' inside r/p definitions, blank/#/; lines at every position outside a continuation, an inline comment after every definition introduced by either marker and containing the other, backslash continuation split at every single blank of every definition line incl. past 4 KiB, reversed and rotated section order): the assertions (Key, Value, Tokens, ParamsTokens of r/p/g/e/m) of the real NewModelFromString are compared with the Lean mirror, and every variant with its original (same definitions) and on the example's policy with the original's decisions; arbitrary text (mutated examples, random bytes) for totality; non-trivial = a variant that differs textually from its original and loads; distinct = variant text"
+	c.Rule = "every examples/*.conf plus generated model texts x the layout transformations (CRLF, padding every line, padding one line past 4 KiB on either side, the last line padded to exactly 4096/8192 bytes without a final newline, tabs around '=' and ',' inside r/p definitions, blank/#/; lines at every position outside a continuation, an inline comment after every definition introduced by either marker and containing the other, an inline comment before the backslash of a continued line, a comment line longer than the buffer above a line longer than the buffer, backslash continuation split at every single blank of every definition line incl. past 4 KiB, reversed and rotated section order): the assertions (Key, Value, Tokens, ParamsTokens of r/p/g/e/m) of the real NewModelFromString are compared with the Lean mirror, and every variant with its original (same definitions) and on the example's policy with the original's decisions; arbitrary text (mutated examples, random bytes) for totality; non-trivial = a variant that differs textually from its original and loads; distinct = variant text"
 	files, _ := filepath.Glob("/repo/examples/*.conf")
 	sort.Strings(files)
 	texts := map[string]string{}
